@@ -507,9 +507,13 @@ def endpoint_resolution(ctx, fi: FuncInfo):
             for comp in comps:
                 info['comps'].append(comp)
                 el = comp.elt
-                if isinstance(el, ast.Subscript):
-                    info['subscripted'] = True
-                    texprs = [el.value]
+                it0 = comp.generators[0].iter
+                # the table is either subscripted by the written name, or its column list is walked
+                tbl = el.value if isinstance(el, ast.Subscript) else (it0.value if isinstance(it0, ast.Attribute) and it0.attr == 'columns' else None)
+                if tbl is not None:
+                    info['subscripted'] = isinstance(el, ast.Subscript)
+                    texprs = [tbl]
+                    el = ast.Subscript(value=tbl, slice=ast.Constant(value=0), ctx=ast.Load())
                     if isinstance(el.value, ast.Name):
                         texprs = value_sources(fn, el.value.id) or texprs
                     for te in texprs:
